@@ -668,7 +668,12 @@ def _m_pop(eng, recv, args, kwargs):
         except IndexError:
             raise ProgExc(IndexError, "pop from empty list")
     if args:
-        raise Unsupported("pop(i) on a symbolic list")
+        if len(args) != 1 or isinstance(recv, DictListRef):
+            raise Unsupported("pop(i) on a symbolic list")
+        # lst.pop(i) = lst[i], then del lst[i] (both raise IndexError outside the range)
+        v = getitem(eng, recv, args[0])
+        delitem(eng, recv, args[0])
+        return v
     nz = zint(recv.n)
     if not eng.branch(eng.sbool(nz > 0)):
         raise ProgExc(IndexError, "pop from empty list")
